@@ -266,6 +266,14 @@ def run_unit(template, tier='quick', keep=True, extra_defs=None, repo=None, buil
         res['reason'] = 'cbmc produced no result list (rc=%s; out of memory or tool error): %s' % (rc, '; '.join(m for m in msgs[-3:]))
         res['wall_s'] = time.time() - t_start
         return res
+    # a call to a function without a body is silently treated as "returns anything, changes nothing" by cbmc: only
+    # the callees deliberately replaced by contracts (and nondet_* helpers) may be body-less
+    for m in msgs:
+        mm = re.search(r"no body for (?:function|callee) '?([A-Za-z_]\w*)", m)
+        if mm and not (mm.group(1) in (info.get('replace') or []) or mm.group(1).startswith(('nondet', '__CPROVER', '__builtin'))):
+            res['reason'] = 'guard: call to %s which has no body and no contract replacement (misspelt name?)' % mm.group(1)
+            res['wall_s'] = time.time() - t_start
+            return res
     # quantifier guard
     for m in msgs:
         if 'ignoring forall' in m or 'ignoring exists' in m:
@@ -287,6 +295,12 @@ def run_unit(template, tier='quick', keep=True, extra_defs=None, repo=None, buil
             failed.append(o)
         elif st != 'SUCCESS':
             unknown.append(o)
+    nb = [o for o in failed if '.no-body.' in o['name']]
+    if nb:
+        res['reason'] = 'guard: call to a function without body or contract replacement (%s): harness/unit error, not a violation' % ', '.join(o['description'] for o in nb[:3])
+        res['obligations'] = len(obligations)
+        res['wall_s'] = time.time() - t_start
+        return res
     res['unknown_after_fatal'] = len(unknown)
     # counterexample traces for the first few failed obligations, each asked for by name
     for k, o in enumerate(failed[:3]):
